@@ -243,6 +243,8 @@ struct Scan {
     nodes: Vec<Node>,
     stmts: Vec<Range<usize>>,
     fn_block: Range<usize>,
+    // every block's statements in order (ranges), for hint relocation to a sibling statement
+    blocks: Vec<Vec<Range<usize>>>,
 }
 
 impl Scan {
@@ -297,6 +299,11 @@ fn is_assign_op(op: &syn::BinOp) -> bool {
 }
 
 impl<'ast> Visit<'ast> for Scan {
+    fn visit_block(&mut self, b: &'ast syn::Block) {
+        let list: Vec<Range<usize>> = b.stmts.iter().filter(|s| !matches!(s, syn::Stmt::Item(_))).map(|s| br(s.span())).collect();
+        self.blocks.push(list);
+        syn::visit::visit_block(self, b);
+    }
     fn visit_stmt(&mut self, s: &'ast syn::Stmt) {
         if let syn::Stmt::Item(_) = s {
             return; // nested items are addressed by their own path
@@ -552,6 +559,43 @@ struct Gen<'a> {
     observed: BTreeMap<String, (String, usize, usize, usize, usize)>,
     key_prefix: String,
     key_seen: BTreeMap<String, usize>,
+    // proof repair: hint key -> shift by that many sibling statements (see check: relocation search)
+    shifts: &'a BTreeMap<String, i64>,
+    hint_seen: BTreeMap<String, usize>,
+    hint_keys: Vec<String>,
+}
+
+/// A hint may be relocated by the proof-repair search only if it is pure proof text: it must not assign to any
+/// existing (ghost) variable - instrumentation such as `proof { trace = trace.push(..) }` defines the MEANING of a
+/// contract and must stay where it is. `let` / `let ghost` bindings are allowed (proof-internal snapshots).
+fn shiftable(text: &str) -> bool {
+    let b: Vec<char> = text.chars().collect();
+    let mut i = 0;
+    // positions of `=` that belong to a `let` binding
+    let mut let_eq: Vec<usize> = vec![];
+    let t: String = text.to_string();
+    let mut from = 0;
+    while let Some(p) = t[from..].find("let ") {
+        let start = from + p;
+        if let Some(q) = t[start..].find('=') {
+            // the first `=` after `let` that is not part of `==`, `=>`, `<=`, `>=`
+            let_eq.push(t[..start + q].chars().count());
+        }
+        from = start + 4;
+    }
+    while i < b.len() {
+        if b[i] == '=' {
+            let prev = if i > 0 { b[i - 1] } else { ' ' };
+            let next = if i + 1 < b.len() { b[i + 1] } else { ' ' };
+            let plain = !matches!(prev, '=' | '!' | '<' | '>' | '~') && !matches!(next, '=' | '~' | '>');
+            // compound assignments `+=` etc. are assignments too
+            if plain && !let_eq.contains(&i) {
+                return false;
+            }
+        }
+        i += 1;
+    }
+    true
 }
 
 fn fingerprint(scan: &Scan, n: &Node) -> String {
@@ -623,6 +667,11 @@ impl<'a> Gen<'a> {
 
     /// `KIND [NAME] [#k]` -> one node
     fn pick_anchor(&mut self, scan: &Scan, anchor: &str, directive: &str, ctx: &str) -> Node {
+        self.pick_anchor_in(scan, anchor, directive, ctx, None)
+    }
+
+    /// `within`: only nodes inside that source range are candidates (ordinals count inside it)
+    fn pick_anchor_in(&mut self, scan: &Scan, anchor: &str, directive: &str, ctx: &str, within: Option<Range<usize>>) -> Node {
         let mut a = anchor.trim().to_string();
         let mut k = 0usize;
         if let Some(p) = a.rfind('#') {
@@ -632,7 +681,8 @@ impl<'a> Gen<'a> {
         let mut it = a.split_whitespace();
         let kind = it.next().unwrap_or("").to_string();
         let name = it.next().unwrap_or("").to_string();
-        let cands: Vec<&Node> = scan.nodes.iter().filter(|n| n.kind == kind && (name.is_empty() || n.name == name)).collect();
+        let cands: Vec<&Node> = scan.nodes.iter().filter(|n| n.kind == kind && (name.is_empty() || n.name == name))
+            .filter(|n| within.as_ref().map(|w| w.start <= n.range.start && n.range.end <= w.end).unwrap_or(true)).collect();
         let named = !name.is_empty() && kind != "binop" || matches!(kind.as_str(), "start" | "end");
         self.pick(scan, cands, k, named, &format!("{directive} {}", anchor.trim()), ctx)
     }
@@ -739,7 +789,7 @@ impl<'a> Gen<'a> {
         if sub.is_some() {
             let Some(block) = block else { undecided(&format!("{ctx}: no body")) };
             let blk = br(block.span());
-            let mut scan = Scan { nodes: vec![], stmts: vec![], fn_block: blk.clone() };
+            let mut scan = Scan { nodes: vec![], stmts: vec![], fn_block: blk.clone(), blocks: vec![] };
             scan.visit_block(block);
             scan.nodes.push(Node { kind: "start", name: String::new(), range: blk.start + 1..blk.start + 1, stmt: blk.start + 1..blk.start + 1, block: Some(blk.clone()), header_end: None, body: None, aux: None });
             scan.nodes.push(Node { kind: "end", name: String::new(), range: blk.end - 1..blk.end - 1, stmt: blk.end - 1..blk.end - 1, block: Some(blk.clone()), header_end: None, body: None, aux: None });
@@ -844,7 +894,7 @@ impl<'a> Gen<'a> {
             self.ins(blk.start + 1, " assert(false); ".into(), o, "canary");
         }
         // scan the body
-        let mut scan = Scan { nodes: vec![], stmts: vec![], fn_block: blk.clone() };
+        let mut scan = Scan { nodes: vec![], stmts: vec![], fn_block: blk.clone(), blocks: vec![] };
         scan.visit_block(block);
         scan.nodes.push(Node { kind: "start", name: String::new(), range: blk.start + 1..blk.start + 1, stmt: blk.start + 1..blk.start + 1, block: Some(blk.clone()), header_end: None, body: None, aux: None });
         scan.nodes.push(Node { kind: "end", name: String::new(), range: blk.end - 1..blk.end - 1, stmt: blk.end - 1..blk.end - 1, block: Some(blk.clone()), header_end: None, body: None, aux: None });
@@ -904,7 +954,26 @@ impl<'a> Gen<'a> {
                     let before = s.kind.starts_with("before");
                     let nodes: Vec<Node> = if all { resolve(scan, &s.arg, true, &sctx).into_iter().cloned().collect() } else { vec![self.pick_anchor(scan, &s.arg, &s.kind, &sctx)] };
                     for n in nodes {
-                        let at = if before { n.stmt.start } else { n.stmt.end };
+                        let mut at = if before { n.stmt.start } else { n.stmt.end };
+                        // every single-anchor hint has a key; a shift moves it over sibling statements of its block
+                        if !all && shiftable(&s.text) {
+                            let base = format!("{}|{} {}", self.key_prefix, s.kind, s.arg.trim());
+                            let i = self.hint_seen.entry(base.clone()).or_insert(0);
+                            let hkey = format!("{}|{}", base, *i);
+                            *i += 1;
+                            self.hint_keys.push(hkey.clone());
+                            if let Some(d) = self.shifts.get(&hkey).copied() {
+                                if let Some(list) = scan.blocks.iter().find(|l| l.iter().any(|r| *r == n.stmt)) {
+                                    let idx = list.iter().position(|r| *r == n.stmt).unwrap() as i64;
+                                    // positions between statements: before stmt j == slot j, after stmt j == slot j+1
+                                    let slot = if before { idx } else { idx + 1 } + d;
+                                    if slot >= 0 && slot <= list.len() as i64 {
+                                        at = if slot == list.len() as i64 { list[list.len() - 1].end } else { list[slot as usize].start };
+                                        self.log.push(json!({"rule": "hint-shift", "file": self.repo_file, "line": self.line_of(at), "old": hkey, "note": format!("hint moved by {d} sibling statement(s)")}));
+                                    }
+                                }
+                            }
+                        }
                         let sec = format!("{}:{}", s.kind, s.arg);
                         if before {
                             self.ins(at, format!("{}\n", s.text), o.clone(), &sec);
@@ -1184,6 +1253,7 @@ fn main() {
     let mut mapp = String::new();
     let mut canary = false;
     let mut anchors_path = String::new();
+    let mut shifts: BTreeMap<String, i64> = BTreeMap::new();
     let mut record_path = String::new();
     let mut i = 3;
     while i < args.len() {
@@ -1193,6 +1263,16 @@ fn main() {
             "--map" => { mapp = args[i + 1].clone(); i += 2; }
             "--canary" => { canary = true; i += 1; }
             "--anchors" => { anchors_path = args[i + 1].clone(); i += 2; }
+            "--shift" => {
+                // KEY=DELTA
+                let a = args[i + 1].clone();
+                if let Some(p) = a.rfind('=') {
+                    if let Ok(d) = a[p + 1..].parse::<i64>() {
+                        shifts.insert(a[..p].to_string(), d);
+                    }
+                }
+                i += 2;
+            }
             "--record-anchors" => { record_path = args[i + 1].clone(); i += 2; }
             x => undecided(&format!("unknown argument {x}")),
         }
@@ -1216,6 +1296,7 @@ fn main() {
         }
     }
     let mut observed_all: BTreeMap<String, (String, usize, usize, usize, usize)> = BTreeMap::new();
+    let mut hint_keys_all: Vec<serde_json::Value> = vec![];
     let mut pieces: Vec<Piece> = vec![];
     let mut rule_log: Vec<serde_json::Value> = vec![];
     let mut items_log: Vec<serde_json::Value> = vec![];
@@ -1244,7 +1325,8 @@ fn main() {
                 }
                 let found = find_in_items(src, &file.items, &path, &ctx);
                 let mut g = Gen { repo_file: ex.file.clone(), src, edits: vec![], seq: 0, log: vec![], rules: ex.rules.clone(), ctx: ctx.clone(), canary,
-                    recorded: &recorded, observed: BTreeMap::new(), key_prefix: format!("{}|{}", ex.file, ex.path.join(" / ")), key_seen: BTreeMap::new() };
+                    recorded: &recorded, observed: BTreeMap::new(), key_prefix: format!("{}|{}", ex.file, ex.path.join(" / ")), key_seen: BTreeMap::new(),
+                    shifts: &shifts, hint_seen: BTreeMap::new(), hint_keys: vec![] };
                 let spec_for = |name: &str| ex.fns.iter().find(|f| f.name == name || f.name.is_empty());
                 let (region, func_label): (Range<usize>, String);
                 let mut prefix = String::new();
@@ -1310,7 +1392,7 @@ fn main() {
                                 g.make_pub(&s.vis, br(s.const_token.span()).start);
                                 if g.rules.contains("R13") {
                                     let blk: syn::Block = syn::Block { brace_token: Default::default(), stmts: vec![] };
-                                    let scan = Scan { nodes: vec![], stmts: vec![], fn_block: 0..0 };
+                                    let scan = Scan { nodes: vec![], stmts: vec![], fn_block: 0..0, blocks: vec![] };
                                     let spec = FnSpec::default();
                                     let _ = &blk;
                                     g.const_rules(&s.expr, &scan, &spec);
@@ -1437,6 +1519,7 @@ fn main() {
                 glue(&mut pieces, "\n", "marker");
                 items_log.push(json!({"file": ex.file, "path": ex.path.join(" / "), "lines": [line, line_end], "bytes": [region.start, region.end], "rules": ex.rules, "unit_line": ex.line}));
                 observed_all.extend(std::mem::take(&mut g.observed));
+                hint_keys_all.extend(std::mem::take(&mut g.hint_keys).into_iter().map(|k| json!({"key": k, "fn": ""})));
                 rule_log.extend(g.log);
             }
         }
@@ -1459,7 +1542,7 @@ fn main() {
         let m: serde_json::Map<String, serde_json::Value> = observed_all.iter().map(|(k, (fp, c, r, n, o))| (k.clone(), json!([fp, c, r, n, o]))).collect();
         std::fs::write(&record_path, serde_json::to_string_pretty(&serde_json::Value::Object(m)).unwrap()).unwrap_or_else(|e| undecided(&format!("cannot write {record_path}: {e}")));
     }
-    let m = json!({"unit": unit.name, "properties": unit.properties, "meta": unit.meta, "pieces": map, "rewrites": rule_log, "items": items_log});
+    let m = json!({"unit": unit.name, "properties": unit.properties, "meta": unit.meta, "pieces": map, "rewrites": rule_log, "items": items_log, "hints": hint_keys_all});
     std::fs::write(&mapp, serde_json::to_string(&m).unwrap()).unwrap_or_else(|e| undecided(&format!("cannot write {mapp}: {e}")));
 }
 
